@@ -415,6 +415,10 @@ fn graph(args: &[&str]) -> String {
         match f[0] {
             "a" => g.add(num(f[1]) as u8, ent(f[2]), ent(f[3])),
             "r" => g.remove(num(f[1]) as u8, ent(f[2]), ent(f[3])),
+            // a replication tick in between: rebuild_graphs + a lookup, result ignored
+            "q" => {
+                let _ = g.indices(&[ent("1")]);
+            }
             _ => g.clear(),
         }
     }
